@@ -72,9 +72,12 @@ var runtimes = map[string][]byte{
 	"loop":   ethcmn.FromHex("0x5b600056"),                         // infinite loop: out of gas
 	"kill":   ethcmn.FromHex("0x33ff"),                             // SELFDESTRUCT(CALLER)
 	"log":    ethcmn.FromHex("0x600160006000a1600160015401600155"), // LOG1; SSTORE(1, SLOAD(1)+1)
+	// "fund, then deploy": CALL(to = CALLDATALOAD(0), value = CALLVALUE), then CREATE2(init = STOP, salt 0); called with
+	// its own child address it pays the address first and deploys a contract there afterwards, in one transaction
+	"factory": hist.RtFactory,
 }
 
-var runtimeNames = []string{"store", "revert", "loop", "kill", "log"}
+var runtimeNames = []string{"store", "revert", "loop", "kill", "log", "factory"}
 
 func initCode(rt []byte) []byte {
 	n := byte(len(rt))
@@ -142,6 +145,12 @@ func (v *view) get(key string) []byte {
 			return val
 		}
 	}
+	val, _ := v.r.App.Context.Storage().Chainstate.Get([]byte(key))
+	return val
+}
+
+// committed reads a key from the last committed state.
+func (v *view) committed(key string) []byte {
 	val, _ := v.r.App.Context.Storage().Chainstate.Get([]byte(key))
 	return val
 }
@@ -411,7 +420,7 @@ func (r *runner) deliver(h int64, i int, raw []byte, kind, tag string) (*violati
 			}
 			wantS := new(big.Int).Neg(new(big.Int).Add(fee, moved))
 			wantR := new(big.Int).Set(moved)
-			known := rtype != "unknown"
+			known := rtype != "unknown" && rtype != "factory" // (a factory passes the value on to its child: judged by conservation)
 			if ok && rtype == "kill" {
 				// SELFDESTRUCT(CALLER): what the contract held, plus the value, goes to the sender
 				wantS = new(big.Int).Add(new(big.Int).Neg(fee), preRecip)
@@ -420,6 +429,32 @@ func (r *runner) deliver(h int64, i int, raw []byte, kind, tag string) (*violati
 			if bytes.Equal(o.from, recip) {
 				wantS = new(big.Int).Neg(fee)
 				wantR = wantS
+			}
+			// conservation: whatever this transaction did, the balance records it wrote and the fee pool sum to what they
+			// summed to before (the EVM moves value, only the fee leaves the accounts, and it goes to the pool)
+			{
+				sum := new(big.Int).Sub(r.v.feePool(), prePool)
+				amt := func(s string) *big.Int {
+					if s == "" || s == storage.TOMBSTONE {
+						return new(big.Int)
+					}
+					return hist.ParseAmt([]byte(s))
+				}
+				var changed []string
+				for _, k := range diffSnap(before, after) {
+					if strings.HasPrefix(k, "b_") && strings.HasSuffix(k, "_OLT") {
+						pre := before[k]
+						if _, had := before[k]; !had {
+							pre = string(r.v.committed(k)) // first write of the block: the committed value was the old one
+						}
+						sum.Add(sum, new(big.Int).Sub(amt(after[k]), amt(pre)))
+						changed = append(changed, k)
+					}
+				}
+				if sum.Sign() != 0 {
+					return &violation{"conservation", cls, fmt.Sprintf("%s: the balance records written by this transaction %q and the fee pool changed by %s in total, want 0 (value %s, gasUsed %d, status %s %s, recipient type %s)",
+						where, changed, sum, o.value, d.GasUsed, status, errTxt, rtype)}, d
+				}
 			}
 			if known {
 				if dS.Cmp(wantS) != 0 {
@@ -632,6 +667,10 @@ func (g *gen) olvm(e *sim.EthUser) (txgen.Tx, string) {
 		a.Value = g.someValue("value")
 		a.Fee.Gas = []int64{300000, 300000, 100000, 50000, 30000, 23000, 22000}[g.u.N(7, "gas")]
 		tag = "call-" + g.ctrType[c]
+		if g.ctrType[c] == "factory" {
+			a.Data = ethcmn.LeftPadBytes(hist.FactoryChild(c).Bytes(), 32)
+			a.Fee.Gas = []int64{300000, 300000, 100000, 60000}[g.u.N(4, "fgas")]
+		}
 	}
 	// failure classes of the consensus pre-checks, and nonce shapes
 	switch g.u.N(32, "fail") {
@@ -678,6 +717,20 @@ func (g *gen) olvm(e *sim.EthUser) (txgen.Tx, string) {
 	case 10:
 		a.Fee.Price = big.NewInt(int64(g.u.Range(1000000001, 5000000000, "price")))
 		tag += "+price-high"
+	case 12, 13:
+		// an access list in the payload raises the intrinsic gas the VM demands; the mempool check prices the
+		// transaction without it: a limit between the two values is refused after the gas was bought
+		al := ethtypes.AccessList{{Address: ethcmn.BytesToAddress([]byte{0xaa}), StorageKeys: []ethcmn.Hash{{1}}}}
+		extra := int64(2400 + 1900)
+		a.Access = &al
+		if base, err := vm.IntrinsicGas(a.Data, nil, a.To == nil); err == nil {
+			short := []int64{0, extra - 1, 2400}[g.u.N(3, "alshort")]
+			a.Fee.Gas = int64(base) + short
+			tag += "+access-list-gas-short"
+			valid = false
+		} else {
+			a.Access = nil
+		}
 	case 11:
 		// spend the whole balance: value = committed balance - gas limit x price (exact only for a plain
 		// transfer that is the sender's first spending in the block; otherwise it is over the balance)
